@@ -284,8 +284,10 @@ def dfa_isomorphic1(D1: DFA, D2: DFA) -> bool:
     todo = {(D1.q0, D2.q0)}
 
     while len(todo) > 0:
+        if _verif.ON: _rest = _verif.force('iso.pick', todo)
         (q1, q2) = set_element(todo)
         todo.remove((q1, q2))
+        if _verif.ON: _verif.restore(todo, _rest)
         if _verif.ON: _verif.emit('iso.pick', q1=q1, q2=q2)
         if (q1 in F1) != (q2 in F2):
             return False
@@ -654,7 +656,9 @@ def dfa_hopfcroft(D: DFA) -> DFA:
     if _verif.ON: _verif.emit('hop.start', P=[sorted(B) for B in P_cal], W=[[sorted(B), b] for (B, b) in W_cal])
     while len(W_cal) > 0:
         if _verif.ON: _verif.emit('hop.state', P=[sorted(B) for B in P_cal], W=[[sorted(B), b] for (B, b) in W_cal])
+        if _verif.ON: _rest = _verif.force('hop.pop', W_cal)
         (W, a) = W_cal.pop()
+        if _verif.ON: _verif.restore(W_cal, _rest)
         if _verif.ON: _verif.emit('hop.pop', W=sorted(W), a=a)
         log(f'(W, a) = {print_Q_a(W, a)}')
         P_cal_copy = P_cal.copy()
